@@ -58,6 +58,7 @@ int main(int argc, char **argv)
     load_all(argc, argv);
     if (mode == 's') { g_use_sched = 1; yyin = stdin; yylex(); }
     else if (mode == 'f') { yyin = fopen(argv[2], "rb"); yylex(); }
+    else if (mode == 'p') { yyin = stdin; yylex(); }
     else if (mode == 'S') { yy_scan_string((char *) g_data); yylex(); }
     else if (mode == 'B') { yy_scan_bytes((char *) g_data, (int) g_len); yylex(); }
     else if (mode == 'U') { if (!yy_scan_buffer((char *) g_data, (size_t) g_len + 2)) { printf("NULLBUF\n"); return 0; } yylex(); }
@@ -73,6 +74,7 @@ int main(int argc, char **argv)
     if (yylex_init(&s)) return 3;
     if (mode == 's') { g_use_sched = 1; yyset_in(stdin, s); yylex(s); }
     else if (mode == 'f') { yyset_in(fopen(argv[2], "rb"), s); yylex(s); }
+    else if (mode == 'p') { yyset_in(stdin, s); yylex(s); }
     else if (mode == 'S') { yy_scan_string((char *) g_data, s); yylex(s); }
     else if (mode == 'B') { yy_scan_bytes((char *) g_data, (int) g_len, s); yylex(s); }
     else if (mode == 'U') { if (!yy_scan_buffer((char *) g_data, (size_t) g_len + 2, s)) { printf("NULLBUF\n"); return 0; } yylex(s); }
@@ -93,7 +95,7 @@ int main(int argc, char **argv)
     char mode = argv[1][0];
     load_all(argc, argv);
     std::ifstream in(argv[2], std::ios::binary);
-    SL lexer(&in);
+    SL lexer(mode == 'p' ? (std::istream *) &std::cin : (std::istream *) &in);
     if (mode == 's') g_use_sched = 1;
     lexer.yylex();
     fflush(stdout);
@@ -102,26 +104,31 @@ int main(int argc, char **argv)
 """
 
 
-def make_spec(prog, rng, backend, bufsize=None, extra_options=None):
+def make_spec(prog, rng, backend, bufsize=None, extra_options=None, plain=False):
+    """plain: the scanner keeps flex's own input routine (YY_INPUT / yyread as generated: the getc loop of interactive buffers,
+    fread, or read() under %option read); such scanners are run in modes p (a pipe on stdin, written in pieces) and f only."""
     defs = {}
     nrules = len(prog['rules'])
     opts = ["noyywrap", "nounput", "noinput"] + backends.BACKENDS[backend]['options'] + list(extra_options or [])
     if prog.get('caseins'):
         opts.append("case-insensitive")
     if backend == 'c99':
-        opts.append("noyyread")
+        if not plain:
+            opts.append("noyyread")
         if bufsize:
             opts.append("bufsize=%d" % bufsize)
     top = ("#define _GNU_SOURCE 1\n" if backend == 'c99' else "") + TOP + "static int g_use_sched;\n"
     if backend in ('nr', 'r'):
-        top += ("#define YY_INPUT(buf,result,max_size) do { if (g_use_sched) result = sched_read(buf, (long) (max_size)); else { "
-                "size_t n_ = fread(buf, 1, (size_t) (max_size), yyin); result = (int) n_; } } while (0)\n")
+        if not plain:
+            top += ("#define YY_INPUT(buf,result,max_size) do { if (g_use_sched) result = sched_read(buf, (long) (max_size)); else { "
+                    "size_t n_ = fread(buf, 1, (size_t) (max_size), yyin); result = (int) n_; } } while (0)\n")
         top += "#define tok(r) emit_tok(r, yytext, (int) yyleng)\n#define yyecho() tok(%d)\n" % (nrules + 1)
     elif backend == 'cxx':
         top += "#define tok(r) emit_tok(r, yytext, (int) yyleng)\n#define yyecho() tok(%d)\n" % (nrules + 1)
     else:
         top += "#define tok(r) emit_tok(r, yyget_text(yyscanner), (int) yyget_leng(yyscanner))\n"
-        top += "static int yyread(char *buf, size_t max_size, yyscan_t yyscanner) { return sched_read(buf, (long) max_size); }\n"
+        if not plain:
+            top += "static int yyread(char *buf, size_t max_size, yyscan_t yyscanner) { return sched_read(buf, (long) max_size); }\n"
     out = ["%option " + " ".join(opts), "%{\n" + top + "%}"]
     pats = [scanner.print_rule_pattern(r, rng, defs) for r in prog['rules']]
     for name in defs:
@@ -135,8 +142,10 @@ def make_spec(prog, rng, backend, bufsize=None, extra_options=None):
         out.append("<*>.|\\n\t{ tok(%d); }" % (nrules + 1))      # c99: yyecho is a function, an explicit catch-all stands in
     out.append("%%")
     main = {'nr': MAIN_NR, 'r': MAIN_R, 'cxx': MAIN_CXX}.get(backend)
-    if backend == 'c99':
+    if backend == 'c99' and not plain:
         main = MAIN_R.replace("else if (mode == 'f') { yyset_in(fopen(argv[2], \"rb\"), s); yylex(s); }", "")
+    elif backend == 'c99':
+        main = MAIN_R
     out.append(EMIT + main)
     return "\n".join(out) + "\n"
 
@@ -162,6 +171,63 @@ def parse_events(out):
     return evs
 
 
+def run_piped(cmd, data, schedule, timeout=8):
+    """Run cmd with data written to its standard input in the pieces of the schedule (a short pause after each piece, so that
+    the reader usually sees them one by one); which pieces a read() or getc() really gets is up to the kernel - the
+    tokens must not depend on it."""
+    import subprocess
+    import threading
+    import time
+    p = subprocess.Popen(cmd, stdin=subprocess.PIPE, stdout=subprocess.PIPE, stderr=subprocess.PIPE)
+
+    def feed():
+        pos = 0
+        k = 0
+        try:
+            while pos < len(data):
+                n = schedule[k] if k < len(schedule) else 4096
+                k += 1
+                p.stdin.write(data[pos:pos + max(1, n)])
+                p.stdin.flush()
+                pos += max(1, n)
+                if k < 40:
+                    time.sleep(0.0015)
+        except (BrokenPipeError, OSError):
+            pass
+        finally:
+            try:
+                p.stdin.close()
+            except (BrokenPipeError, OSError):
+                pass
+    th = threading.Thread(target=feed, daemon=True)
+    th.start()
+    try:
+        out, err = p.communicate_nostdin(timeout) if hasattr(p, "communicate_nostdin") else _collect(p, timeout)
+    except subprocess.TimeoutExpired:
+        p.kill()
+        p.wait()
+        return "timeout", b"", b""
+    th.join(1)
+    return p.returncode, out, err
+
+
+def _collect(p, timeout):
+    import subprocess
+    import threading
+    bufs = {}
+
+    def rd(name, f):
+        bufs[name] = f.read()
+    t1 = threading.Thread(target=rd, args=("o", p.stdout), daemon=True)
+    t2 = threading.Thread(target=rd, args=("e", p.stderr), daemon=True)
+    t1.start()
+    t2.start()
+    p.wait(timeout)
+    t1.join(2)
+    t2.join(2)
+    return bufs.get("o", b""), bufs.get("e", b"")
+
+
 OVERFLOW_MSG = "can't enlarge buffer because scanner uses"
 
 
@@ -175,7 +241,8 @@ def eval_sched_case(flex, workdir, case):
     if backend == 'c99':
         prog = dict(prog)
         prog['rules'] = list(prog['rules']) + [{'head': ('alt', ('any',), ('c', 10)), 'bol': False, 'scs': '*', 'trail': None}]
-    text = make_spec(case['prog'], Rng(case['seed']).fork("print"), backend, bufsize=case.get('bufsize'), extra_options=case.get('extra_options'))
+    text = make_spec(case['prog'], Rng(case['seed']).fork("print"), backend, bufsize=case.get('bufsize'), extra_options=case.get('extra_options'),
+                     plain=bool(case.get('plain')))
     res['text'] = text
     with open(os.path.join(workdir, "s.l"), "w") as f:
         f.write(text)
@@ -215,7 +282,10 @@ def eval_sched_case(flex, workdir, case):
         ipath = os.path.join(workdir, "in%d.bin" % ii)
         with open(ipath, "wb") as f:
             f.write(bytes(w))
-        rc, out, err = run([os.path.join(workdir, "s.exe"), mode, ipath] + [str(x) for x in schedule], timeout=6)
+        if mode == 'p':
+            rc, out, err = run_piped([os.path.join(workdir, "s.exe"), mode, ipath], bytes(w), schedule, timeout=8)
+        else:
+            rc, out, err = run([os.path.join(workdir, "s.exe"), mode, ipath] + [str(x) for x in schedule], timeout=6)
         evs = parse_events(out)
         maxsizes = list(MAXSIZES)
         errs = err.decode(errors="replace")
